@@ -96,7 +96,7 @@ func TestVerifC10Merkle(t *testing.T) {
 			leaf := append([]byte{}, items[i]...)
 			rh := append([]byte{}, rootHash...)
 			kind := ""
-			switch r.Intn(22) {
+			switch r.Intn(24) {
 			case 0:
 				kind = "genuine"
 			case 1:
@@ -187,6 +187,16 @@ func TestVerifC10Merkle(t *testing.T) {
 					p = cloneProof(pp[j])
 					leaf = append([]byte{}, prev[j]...)
 				}
+			case 22:
+				// the proof of the LAST leaf presented under index == total (and nearby): the path
+				// recomputation walks right at every level for both
+				kind = "last-leaf-index-at-total"
+				p = cloneProof(proofs[len(proofs)-1])
+				leaf = append([]byte{}, items[len(items)-1]...)
+				p.Index = p.Total + int64(r.Intn(2))
+			case 23:
+				kind = "index-anywhere" // any leaf's proof under any index in [0, total+2]
+				p.Index = int64(r.Intn(int(p.Total) + 3))
 			case 19, 20:
 				// nothing can be recomputed from the proof, and the root offered is empty / nil
 				kind = "empty-root+broken-path"
